@@ -149,7 +149,30 @@ def checkEval2 (op : String) (args res : List String) : Verdict :=
         | none =>
         let p := MPoly.normalize none raw
         match Eval.rootsUnder p yVar a rootsCap with
-        | none => .skip "roots inconclusive (size cap / fuel / degenerate eliminant)"
+        | none =>
+          -- degenerate eliminant (or cap): isolate by interval arithmetic alone (simple roots only)
+          match Eval.rootsByIntervals p yVar a with
+          | none => .skip "roots inconclusive (size cap / fuel / multiple roots with a degenerate eliminant)"
+          | some cells =>
+            let tag := s!"ev/roots-by-intervals/{asgKinds av}/{cells.length}"
+            if cells.length ≠ n then .viol tag s!"{n} roots returned, exact number {cells.length}" else
+            let judged := (cells.zip got).map (fun cg =>
+              match cg.2.toZ? with
+              | none => some false
+              | some z =>
+                let inCell : Option Bool := match cg.1 with
+                  | .pt q => (Alg.cmpRat z.a q).map (· == 0)
+                  | .iv l u => match Alg.cmpRat z.a l, Alg.cmpRat z.a u with
+                    | some c1, some c2 => some (c1 > 0 && c2 < 0)
+                    | _, _ => none
+                let cand : Asg := (yVar, z) :: a
+                let isRoot : Option Bool := if Eval.elimSize p cand > rootsCap then some true else (Eval.exactSign p cand).map (· == 0)
+                match inCell, isRoot with
+                | some x, some y => some (x && y)
+                | _, _ => none)
+            if judged.any (· == some false) then .viol tag "a returned root is not the root of the specialised polynomial in its cell"
+            else if judged.any (· == none) then .skip "cmp out of fuel"
+            else .ok tag
         | some want =>
           let tag := s!"ev/roots/{asgKinds av}/{want.length}"
           if want.length ≠ n then .viol tag s!"{n} roots returned, exact number {want.length}" else
